@@ -745,7 +745,10 @@ def convert_to_tensor(value, dtype=None, dtype_hint=None, name=None):
         a = _cast_arr(a, dt)
         return Tensor(a, dt)
     if a.dtype != object and not _has_np(value):
-        # TensorFlow's defaults for plain Python numbers
+        # TensorFlow's defaults for plain Python numbers (dtype_hint is honoured for them, as in TensorFlow)
+        hint = as_dtype(dtype_hint)
+        if hint is not None and a.dtype.kind in "fi" and getattr(hint, "name", "").startswith(("float", "complex")):
+            return Tensor(_cast_arr(a, hint), hint)
         if a.dtype.kind == "f":
             return Tensor(a.astype(np.float32), float32)
         if a.dtype.kind == "i":
